@@ -195,6 +195,29 @@ theorem data_chunk_live {clamp : Nat} {X : ArenaAt} {block : Nat} (t : Tuning) {
       obtain ⟨g1, k, g2, g3, _, g5⟩ := hc hd a ha hl0
       exact ⟨a, bs, ha, rfl, hb, hl0, g1, k, g2, g3, g5⟩
 
+/-- READER, what is proved of "the world-level reader returns what the byte-level reader returns": every `pump`
+that `next_record_bytes` performs (the first thing `stepW` does, on the arena of the reader's own iovec) returns
+the byte-level chunk and keeps `CRel`, whenever `CRel` holds before it.
+
+FULL STATEMENT (not proved): for `x : RdSt`, `s : Stream.RdState` with `CRel x.w x.s.chunker s.chunker`, equal
+`lastSentinel` / `hist`, and `nextW clamp p judge block x = some (res, x')`:
+`Stream.next clamp t p judge block s x.r = (res', s', x'.r)` with `res = .some a b ↔ res' = .some bytes a b` where
+`bytes = x'.w.flat v.slices` for the record iovec `v`, `res = .none ↔ res' = .none`, `res = .ioerr k ↔ res' = .ioerr k`,
+and the relation holds again between `x'` and `s'`.
+MISSING: (1) `decode_anchored` of a chunk keeps `CRel` — the decoder's copies land above the chunker's buffered
+tail (a heap-frame lemma along `HPath` for a detached slice other than the held one: `IovecHeap.pushCopy_heap` with
+`ArenaInv.below` of the holding world); (2) the iovec's `total_size()` and flattened bytes after the call are
+`Stream.Rec.size` / `Stream.Rec.bytes` of the emits of `Dec.feedAll` on the chunk's bytes (`Pushed` /
+`EncWorldAnch.decFeed_simH` for a chunk whose `AnchoredSlice` was not read by this very call), which is what the
+judge's verdict and the returned record depend on. -/
+theorem reader_world_agrees_partial (clamp : Nat) (block : Nat) (t : Tuning) (x : RdSt) (c : Chunker) (m : Mem)
+    (res : PumpResW) (o : PumpSt) (hrel : CRel x.w x.s.chunker c)
+    (h : pumpW clamp (.iov x.s.iov) block ⟨x.w, x.s.chunker, x.r, []⟩ = some (res, o)) :
+    ResRel o.w res (pump clamp t block c m x.r).res ∧ CRel o.w o.c (pump clamp t block c m x.r).chunker ∧
+    o.r = (pump clamp t block c m x.r).reader :=
+  let ⟨h1, h2, h3, _⟩ := pumpW_refines clamp (.iov x.s.iov) block t ⟨x.w, x.s.chunker, x.r, []⟩ c m res o hrel h
+  ⟨h1, h2, h3⟩
+
 /-! ### Non-vacuity -/
 
 private def pol : Policy := ⟨4, 8⟩
